@@ -110,6 +110,16 @@ def check(case, ctx):
         fn2, a2 = {"adder": (cg.logic.adder, (w, case.get("cin"), case.get("cout"))), "mux": (cg.logic.mux, (w,)), "popcount": (cg.logic.popcount, (w,)), "half_adder": (cg.logic.half_adder, ()), "full_adder": (cg.logic.full_adder, ())}[blk]
         if not repeat_call(ctx, blk, f"logic.{blk}({w})", fn2, a2, {}, (ok, c)):
             return
+        # a caller may customise a returned block in place; later blocks must not be affected
+        for nn in list(c.graph.nodes)[:4]:
+            if c.graph.nodes[nn].get("type") in ("and", "or", "xor"):
+                c.graph.nodes[nn]["type"] = {"and": "or", "or": "and", "xor": "xnor"}[c.graph.nodes[nn]["type"]]
+        c.graph.add_node("zz_scribble", type="buf", output=True)
+        ok, c = ctx.call(fn2, *a2)
+        ctx.count("regenerated_after_edit")
+        if not ok:
+            ctx.violation(blk + "_raised", f"logic.{blk}({w}) raised {c!r} when called again")
+            return
     net = Net.of(c)
     probs = own_lint(net)
     okl, rl = ctx.call(cg.lint, c)
